@@ -16,7 +16,7 @@ def eachClosed {α : Type} (p : List Tok → R α) : List (List Tok) → Except 
 
 /-- `pop_as_children_scanner_list_split_by(",")` -/
 def popSplit (ts : List Tok) : R (List (List Tok)) :=
-  match ts with | [] => .error (.py .IndexError) | g :: r => .ok (splitBy "," g.children [] [], r)
+  match ts with | [] => .error .parse | g :: r => .ok (splitBy "," g.children [] [], r)
 
 /-- `_parse_table_name_expression` as a `TableName` -/
 def pTblName (ts : List Tok) : R TableName :=
@@ -25,10 +25,10 @@ def pTblName (ts : List Tok) : R TableName :=
   | .ok (.sub _, _) => .error (.unmodelled "impossible")
   | .error e => .error e
 
-/-- `_parse_insert_type` (INSERT IGNORE INTO is recorded as INSERT_INTO, `parser.py:146-147`) -/
+/-- `_parse_insert_type` -/
 def pInsertType (ts : List Tok) : R String :=
   if searchTwoUp ts "INSERT" "INTO" then .ok ("INSERT_INTO", ts.drop 2)
-  else if searchThreeUp ts "INSERT" "IGNORE" "INTO" then .ok ("INSERT_INTO", ts.drop 3)
+  else if searchThreeUp ts "INSERT" "IGNORE" "INTO" then .ok ("INSERT_IGNORE_INTO", ts.drop 3)
   else if searchTwoUp ts "INSERT" "OVERWRITE" then .ok ("INSERT_OVERWRITE", ts.drop 2)
   else .error .parse
 
@@ -134,7 +134,7 @@ def pIndexCol (ts : List Tok) : R IndexCol :=
   | .ok (n, r) =>
     if searchMark r PAREN then
       (match r with
-       | [] => .error (.py .IndexError)
+       | [] => .error .parse
        | g :: r1 => match closed (popInt g.children) with
          | .ok n' => .ok (⟨unifyName n, some n'⟩, r1) | .error e => .error e)
     else .ok (⟨unifyName n, none⟩, r)
@@ -175,12 +175,14 @@ def pFulltextIndex := pNamedIndex .fulltext ["FULLTEXT", "KEY"]
 def pGenerated (d : Gen.D) (f : Nat) (ts : List Tok) : R (Option GenCol) :=
   if searchThreeUp ts "GENERATED" "ALWAYS" "AS" then
     (match ts.drop 3 with
-     | [] => .error (.py .IndexError)
+     | [] => .error .parse
      | g :: r => match closed (pCompute d f g.children) with
        | .error e => .error e
        | .ok e => match popSrc r with
          | .error e => .error e
-         | .ok (m, r1) => .ok (some ⟨e, (Gen.genColSaveModes.find? (·.1 == m)).map (·.2)⟩, r1))
+         | .ok (m, r1) => match Gen.genColSaveModes.find? (·.1 == m) with
+           | some sm => .ok (some ⟨e, some sm.2⟩, r1)
+           | none => .error .parse)
   else .ok (none, ts)
 
 /-- the attribute loop of `_parse_define_column_expression` (`while not scanner.is_finish`) -/
@@ -204,10 +206,9 @@ def defColLoop (d : Gen.D) (f : Nat) : Nat → DefCol → List Tok → Except Er
     else if searchStrUp ts "UNSIGNED" then defColLoop d f g { c with unsigned := true } (ts.drop 1)
     else if searchStrUp ts "ZEROFILL" then defColLoop d f g { c with zerofill := true } (ts.drop 1)
     else if searchStrUp ts "GENERATED" then
-      -- a GENERATED that is not followed by ALWAYS AS does not move the cursor: the Python loop never ends
       (match pGenerated d f ts with
        | .ok (some gc, r) => defColLoop d f g { c with generated := some gc } r
-       | .ok (none, _) => .error .diverges
+       | .ok (none, _) => .error .parse
        | .error e => .error e)
     else .error .parse
 /-- `_parse_define_column_expression`: consumes the whole cursor -/
@@ -545,7 +546,7 @@ def pStatement (d : Gen.D) (f : Nat) (ts : List Tok) : R Stmt :=
   else if searchTwoUp ts "TRUNCATE" "TABLE" then pTruncate ts
   else if searchTwoUp ts "SHOW" "DATABASES" then .ok (.showDatabases, ts.drop 2)
   else if searchTwoUp ts "SHOW" "TABLES" then .ok (.showTables, ts.drop 2)
-  else if searchTwoUp ts "SHOW" "COLUMNS" then pShowColumns d f (ts.drop 2)   -- the keywords were already consumed (`parser.py:2385` vs `2324`)
+  else if searchTwoUp ts "SHOW" "COLUMNS" then pShowColumns d f ts
   else match pWith d f ts with
     | .error e => .error e
     | .ok (withs, r) =>
